@@ -13,8 +13,7 @@ structure State where
 /-- hold-downs as found in the tree (the Props file pins their direction). -/
 def params : Params :=
   { addHold := SdnsVerif.Gen.C09.add_holddown_hours * 3600,
-    remHold := SdnsVerif.Gen.C09.missing_holddown_hours * 3600,
-    unreadableEmpty := SdnsVerif.Gen.C09.shape_unreadable_tombstones_use_empty_map }
+    remHold := SdnsVerif.Gen.C09.missing_holddown_hours * 3600 }
 
 def flagsOf (k : Key) : Nat := k.other + (if k.sep then 1 else 0) + (if k.revoke then 128 else 0)
 
